@@ -25,8 +25,12 @@ def r1_fast_path_guard(ctx, F):
         return
     rets = set(f.returns())
 
-    def required(name, edges):
-        """every return reached without collect_slow is reached through one of `edges`"""
+    def required(name, edges_and_locals):
+        """every return reached without collect_slow is reached through an edge that can only be taken when the test
+        held (the test's own true-edges, or those of a boolean local built as a conjunction containing it)"""
+        from kern import conjunction_edges
+        edges, locs = edges_and_locals
+        edges = conjunction_edges(f, locs, edges) if (edges or locs) else set()
         ok = bool(edges) and not (rets & f.reach(0, cut_blocks={slow[0].bb}, cut_edges=set(edges)))
         ctx.check(ok, "C08.R1", "fast-path-requires:" + name,
                   "the fast path is entered only when " + name,
@@ -35,19 +39,21 @@ def r1_fast_path_guard(ctx, F):
                   "the slow path" % name, fn=f)
 
     def test_edges(callee_re, src_re, want="true"):
-        out = set()
+        out, locs = set(), set()
         for c in f.calls:
             if c.bb in f.cleanup or not re.search(callee_re, c.name) or not c.args:
                 continue
             if any(o[0] == "call" and re.search(src_re, o[1].name) for o in origins(f, c.args[0])):
                 out |= set(bool_call_edges(F, f, c, want))
-        return out
+                locs.add(c.dest_local)
+        return out, locs
 
     required("there are no named arguments", test_edges(r"::is_empty$", r"ArgumentsImpl::named$"))
     required("there is no *args argument", test_edges(r"Option::<T>::is_none$", r"ArgumentsImpl::args$"))
     required("there is no **kwargs argument", test_edges(r"Option::<T>::is_none$", r"ArgumentsImpl::kwargs$"))
     # the two length equalities
     eq = {"num_positional": set(), "param_kinds": set()}
+    eql = {"num_positional": set(), "param_kinds": set()}
     for st in f.stmts:
         if st.kind != "binop Eq" or st.bb in f.cleanup:
             continue
@@ -77,8 +83,10 @@ def r1_fast_path_guard(ctx, F):
         for k in eq:
             if k in srcs:
                 eq[k] |= set(bool_local_edges(f, st.lhs, "true"))
-    required("the number of positional arguments equals the number of positional parameters", eq["num_positional"])
-    required("the number of positional arguments equals the number of parameters", eq["param_kinds"])
+                eql[k].add(st.lhs)
+    required("the number of positional arguments equals the number of positional parameters",
+             (eq["num_positional"], eql["num_positional"]))
+    required("the number of positional arguments equals the number of parameters", (eq["param_kinds"], eql["param_kinds"]))
 
 
 MISSING = ["Missing positional-only parameter", "Missing named-only parameter", "Missing parameter"]
@@ -90,11 +98,41 @@ def r2_failure_exits(ctx, F):
     f = F.one(SPEC % "collect_slow")
     bodies = [f] + list(F.closures_of(f))
     built = {}
+    per_body = {}
     for g in bodies:
         for st in g.stmts:
             m = re.match(r"agg adt eval::runtime::arguments::FunctionError::(\w+)$", st.kind)
             if m and st.bb not in g.cleanup:
-                built[m.group(1)] = built.get(m.group(1), 0) + 1
+                per_body.setdefault(g.uid, set()).add(m.group(1))
+                if g is f:
+                    built[m.group(1)] = built.get(m.group(1), 0) + 1
+    # an error built by a local closure/helper counts once per place the helper is called
+    for g in bodies[1:]:
+        cl_locals = {st.lhs for st in f.stmts if st.kind.startswith("agg closure ") and st.kind.endswith("@" + g.uid)}
+        n_calls = sum(1 for c in f.calls if c.bb not in f.cleanup and not c.indirect and c.callee_uid() == g.uid)
+        for c in f.calls:
+            if c.bb in f.cleanup or not re.search(r"ops::Fn(Mut|Once)?::call(_mut|_once)?$", c.name) or not c.args:
+                continue
+            seen, work = set(), re.findall(r"_\d+", c.args[0])
+            while work:
+                l = work.pop()
+                if l in seen:
+                    continue
+                seen.add(l)
+                if l in cl_locals:
+                    n_calls += 1
+                    break
+                for st in f.stmts:
+                    if st.lhs_local == l:
+                        work += re.findall(r"_\d+", st.text())
+        # ... or handed to a combinator (`map_err(|_| FunctionError::X)`)
+        for c in f.calls:
+            if c.bb in f.cleanup or re.search(r"ops::Fn(Mut|Once)?::call(_mut|_once)?$", c.name):
+                continue
+            if any(a.split()[-1] in cl_locals for a in c.args if a.startswith(("move ", "copy "))):
+                n_calls += 1
+        for v in per_body.get(g.uid, ()):
+            built[v] = built.get(v, 0) + n_calls
     for v in SLOW_ERRORS:
         need = 2 if v == "RepeatedArg" else 1  # repeated by position/name, and repeated through **kwargs
         ctx.check(built.get(v, 0) >= need, "C08.R2", "failure-exit:" + v,
@@ -182,12 +220,6 @@ def r4_phase_order(ctx, F):
         ctx.check(ok, "C08.R4", "phase-order:%s<%s" % (an, bn), "%s are bound before %s" % (an, bn),
                   "collect_slow looks at the %s before the %s are bound: a parameter filled from both is no longer "
                   "reported as repeated (the later one silently wins)" % (bn, an), fn=f, line=b.line)
-    # the position/name clash test (a Gt/Lt comparison feeding RepeatedArg) comes after the *sequence loop
-    rep = [st for st in f.stmts if st.kind.endswith("FunctionError::RepeatedArg") and st.bb not in f.cleanup]
-    clash = [st for st in rep if st.bb not in f.after(kw.bb)]
-    ctx.check(bool(clash) and all(st.bb in f.after(star.bb) for st in clash), "C08.R4", "phase-order:clash-test-after-*sequence",
-              "the position/name clash test follows the spreading of *sequence",
-              "the position/name clash test of collect_slow no longer follows the *sequence loop (or is gone)", fn=f)
 
 
 def r5_call_site_layout(ctx, F):
